@@ -90,7 +90,7 @@ pub static PAIRS: [AtomicU32; MAX_SITES * MAX_SITES] = [A32; MAX_SITES * MAX_SIT
 /// Nested deliveries per site: a dispatcher started on a thread whose last site was s.
 pub static NESTED_AT: [AtomicU64; MAX_SITES] = [A64; MAX_SITES];
 
-/// 0 = hook events are not logged, 1 = only DISPATCH_ENTER/EXIT and IT_A_STORED, 2 = all sites.
+/// 0 = hook events are not logged, 1 = only DISPATCH_ENTER/EXIT, EX_STORE and IT_A_STORED, 2 = all sites.
 pub static LOG_HOOKS: AtomicU32 = AtomicU32::new(0);
 pub static OBSERVER: AtomicPtr<()> = AtomicPtr::new(std::ptr::null_mut());
 pub static COVER: AtomicBool = AtomicBool::new(false);
@@ -301,7 +301,7 @@ fn hook(s: u32, a: usize, b: usize) {
     match LOG_HOOKS.load(Ordering::Relaxed) {
         0 => {}
         1 => {
-            if s == site::DISPATCH_ENTER || s == site::DISPATCH_EXIT || s == site::IT_A_STORED {
+            if s == site::DISPATCH_ENTER || s == site::DISPATCH_EXIT || s == site::IT_A_STORED || s == site::EX_STORE {
                 evlog::log(s, a as u64, b as u64);
             }
         }
